@@ -286,6 +286,7 @@ ELEMS = {
     'tiltB': ('tilt', (-0.5e-6, 3.0e-6)),
     'disp1': ('disp', ([0.5, 1e-6], [2.0 ** -10, WL - 2.0 ** -10 * 3e-5])),                  # 1st order trace & dispersion
     'disp2t': ('disp', ([4000.0, 0.3, 0.0], [2.0 ** -10, WL - 2.0 ** -10 * 2e-5])),            # 2nd order trace
+    'disp2t_neg': ('disp', ([4000.0, 0.3, 0.0], [2.0 ** -10, WL + 2.0 ** -10 * 2e-5])),       # 2nd order trace, negative distance along it
     'disp2d': ('disp', ([-0.25, 0.0], [0.5, 2.0 ** -10, WL - (0.5 * (1e-5) ** 2 + 2.0 ** -10 * 1e-5)])),   # 2nd order dispersion
 }
 
@@ -515,15 +516,17 @@ def t_misc(arg, acc):
     elif what == 'order':
         maxk = 3 if tier == 'quick' else 4
         names = list(ELEMS)
+        first = arg.get('first')
         for k in range(0, maxk + 1):
             for sub in itertools.combinations(names, k):
                 for perm in itertools.permutations(sub):
+                    if (perm[0] if perm else names[0]) != first:
+                        continue
                     acc.transitions += 1
                     chk_order({'kind': 'order', 'elems': list(perm)}, acc, seed)
         # repeated elements (multisets)
-        for a in names:
-            for b in names:
-                chk_order({'kind': 'order', 'elems': [a, b, a]}, acc, seed)
+        for b in names:
+            chk_order({'kind': 'order', 'elems': [first, b, first]}, acc, seed)
     elif what == 'hist':
         depth = 3 if tier == 'quick' else 4
         for aperture in ('mono', 'seg2'):
@@ -540,8 +543,10 @@ def run(tier, seed, acc, procs=None):
         for aperture in ('mono', 'seg2'):
             for rep in REPS:
                 tasks.append(('t_rep', {'tier': tier, 'seed': seed, 'pupil': pupil, 'aperture': aperture, 'rep': rep}))
-    for what in ('shift', 'fit', 'order'):
+    for what in ('shift', 'fit'):
         tasks.append(('t_misc', {'tier': tier, 'seed': seed, 'what': what}))
+    for first in ELEMS:
+        tasks.append(('t_misc', {'tier': tier, 'seed': seed, 'what': 'order', 'first': first}))
     for first in HEV:
         tasks.append(('t_misc', {'tier': tier, 'seed': seed, 'what': 'hist', 'first': first}))
     acc.states += 1
